@@ -40,12 +40,16 @@ THEOREMS = [
     'CC.C19_wave_tables_agree', 'CC.C19_unknown_wave_linked',
 ]
 LEAN_MODULE_EXTRA = ['CC.Properties.C19More']
-OPEN_STATEMENTS = ['no Lean statement (oracle only): create_schematic fault classes; that TransientSolution.get_voltage / get_current / get_potential / get_power evaluate the state-space row accessors first (the translator extracts of that class only the product of get_power; C19_transient_* are about the generated accessors c_row_* / d_row_* of NodalStateSpaceModel, the link to the getters is read from solution.py:188-198 — next step: a row table for TransientSolution in harness/extract_solution.py); unknown ids against the series the Time/FrequencyDomainSolution getters compute after their guard',
+# translator tie of the TransientSolution getters (harness/extract_solution.py -> Gen.Sol.transientTable; reading: CC/Model/TransientGetters.lean)
+THEOREMS += ['CC.C19_transient_table_shape', 'CC.C19_transient_getters_call_rows', 'CC.C19_transient_accessors_bound',
+             'CC.C19_transient_unknown_getter', 'CC.C19_transient_unknown_getter_built']
+LEAN_MODULE_EXTRA = list(LEAN_MODULE_EXTRA) + ['CC.Properties.C19Transient']
+OPEN_STATEMENTS = ['no Lean statement (oracle only): create_schematic fault classes; for TransientSolution: what __post_init__ stores in _ssm / _x / _u beyond the constructor call the translator records (Gen.Sol.transientSsm) — the getters themselves ARE extracted (Gen.Sol.transientTable) and C19_transient_unknown_getter proves that every getter raises for an unknown id, for every model object and arbitrary _x, _u; the evaluator of the generated expression trees and the binding of the accessor names to the generated functions (transientGetter, ssmAccessor in CC/Model/TransientGetters.lean) are hand-written readings of the table; numpy shape errors are not modelled; unknown ids against the series the Time/FrequencyDomainSolution getters compute after their guard',
                    'load_network fault classes (C19_load_*) are theorems about the model loadNetwork of CC/Model/Load.lean on the GENERATED tables of CC/Gen/LoadTables.lean; the model body is hand-written and tied to the code by the cc_load correspondence. C19_load_missing_value_key states rejection, not the exception class (KeyError->FileExistsError, TypeError or FileFormatError depending on the table row). A description that is a dict or a str (iterated by keys / characters) is covered by C19_load_not_a_dict only through its .arr form — the .obj / .str branches of loadNetwork have no fault theorem',
                    'conjuncts 3-4 of C19_unknown_query_guarded and C19_unknown_query_all_rows are about the hand-written copies requireComponent / requireNode (the _require_* bodies are compared verbatim by the translator); C19_unknown_wave is about the hand-written periodicFunction, which C19_unknown_wave_linked proves equivalent, for every name and on the generated table, to the generated lookup Gen.Fourier.periodicFunction']
 ASSUMPTIONS = [
     'Python keyword binding (missing / unexpected keyword ⇒ TypeError) and comparison of a str or complex with a number (⇒ TypeError) are modelled as such',
-    'the series computed by the time- and frequency-domain getters, the wiring of TransientSolution (which row accessor each getter calls) and create_schematic are not modelled: those fault classes are checked on the implementation only; load_network is modelled by CC/Model/Load.lean (hand-written body over generated tables, correspondence cc_load)',
+    'the series computed by the time- and frequency-domain getters and create_schematic are not modelled (which row accessor each TransientSolution getter calls is extracted: Gen.Sol.transientTable, C19_transient_getters_call_rows): those fault classes are checked on the implementation only; load_network is modelled by CC/Model/Load.lean (hand-written body over generated tables, correspondence cc_load)',
     'the hand-written model (Circuit.mk?, generateComponent, elmLoad, periodicFunction) is tied to the code by the correspondence only; constructor guards and tables are regenerated from the source',
 ]
 
